@@ -24,6 +24,10 @@ type wlRender struct {
 	TypePerm []int  `json:"type_perm,omitempty"` // perm-types (modular models)
 	KeySeed  uint64 `json:"key_seed,omitempty"`  // json-keys: shuffles object keys of the JSON encoding
 	Repeat   int    `json:"repeat,omitempty"`
+	// Poison: the model is one the printer must reject (condition stored under
+	// a key that is not its name, or a direct assignment the DSL cannot place).
+	// Such calls are part of the history of every later call in the process.
+	Poison string `json:"poison,omitempty"`
 }
 
 type renderCtx struct {
@@ -319,6 +323,10 @@ func (c *renderCtx) check(cfg simrt.Config) ([]mismatch, simrt.Stats, string) {
 			add("render.not_canonical", "output depends on the %s: %s", what, diffAt(c.canon, out))
 		}
 	}
+	if wl.Poison != "" {
+		// only canonicity of the (error) outcome is checked for these
+		return mm, st, "poison: " + errs
+	}
 	if errs != "" {
 		// every generated plan is DSL expressible
 		add("render.error", "rendering a DSL expressible model failed: %s", errs)
@@ -409,13 +417,57 @@ func genRenderModel(r *rng) *Model {
 	return m
 }
 
+// poisonModel turns a model into one the printer rejects late (after part of
+// the output has been produced).
+func poisonModel(r *rng, m *Model) string {
+	if len(m.Conds) >= 2 && r.chance(60) {
+		// the last condition in output order is stored under a foreign key
+		names := make([]string, len(m.Conds))
+		for i, c := range m.Conds {
+			names[i] = c.Name
+		}
+		sort.Strings(names)
+		for _, c := range m.Conds {
+			if c.Name == names[len(names)-1] {
+				c.Key = c.Name
+				c.Name = c.Name + "x"
+			}
+			c.Module, c.File = "", ""
+		}
+		return "cond-key"
+	}
+	// a second direct assignment in the last relation of the last type
+	for ti := len(m.Types) - 1; ti >= 0; ti-- {
+		t := m.Types[ti]
+		if len(t.Relations) == 0 {
+			continue
+		}
+		rels := append([]*Relation(nil), t.Relations...)
+		sort.SliceStable(rels, func(i, j int) bool { return rels[i].Name < rels[j].Name })
+		rel := rels[len(rels)-1]
+		rel.Expr = &Expr{Kind: KUnion, Children: []*Expr{{Kind: KComputed, Rel: rels[0].Name}, {Kind: KInter, Children: []*Expr{{Kind: KComputed, Rel: rels[0].Name}, {Kind: KThis}}}}}
+		if len(rel.Direct) == 0 {
+			rel.Direct = []Ref{{Type: "user"}}
+		}
+		return "nesting"
+	}
+	return ""
+}
+
 func renderRunOne(b *BatchResult, prop string, seed, run uint64, nRandom int) {
 	r := newRNG(seed, hashStr("rendersim"), hashStr(prop), run)
 	m := genRenderModel(r)
+	poison := ""
+	if r.chance(8) {
+		poison = poisonModel(r, m)
+		if poison != "" {
+			b.Mix["poison_models_"+poison]++
+		}
+	}
 	b.Workloads++
 	b.keySet[hashStr(modelKey(m)+fmt.Sprint(m.Conds))] = true
 	for _, source := range []bool{false, true} {
-		wl := &wlRender{Variant: "base", Model: m, Source: source}
+		wl := &wlRender{Variant: "base", Model: m, Source: source, Poison: poison}
 		c := newRenderCtx(wl)
 		if c.isModular && !source {
 			b.Mix["modular_models"]++
